@@ -84,9 +84,11 @@ def _redundant_sense(lex: lmf.Lexicon, ids: _Ids) -> _Result:
 
 def _redundant_entry(lex: lmf.Lexicon, ids: _Ids) -> _Result:
     """redundant lexical entry with the same lemma and synset"""
-    redundant = _multiples((e['lemma']['writtenForm'], s['synset'])
+    # count each entry once per synset: two senses of one entry in the
+    # same synset are a redundant sense (W202), not a redundant entry
+    redundant = _multiples((e['lemma']['writtenForm'], synset)
                            for e in _entries(lex)
-                           for s in _senses(e))
+                           for synset in dict.fromkeys(s['synset'] for s in _senses(e)))
     return {form: {'synset': synset} for form, synset in redundant}
 
 
